@@ -31,6 +31,7 @@ type ScenParams struct {
 	Kind  string `json:"kind"`
 	Cores []int  `json:"cores,omitempty"`
 	Extra string `json:"extra,omitempty"`
+	RevSrc bool  `json:"rev_src,omitempty"` // the source emits its files in REVERSE name order (arrival order differs from sorted order)
 	AbsSrc bool  `json:"abs_src,omitempty"` // the source files are given with ABSOLUTE paths
 	Cwd   string `json:"cwd,omitempty"` // filled in by the worker: the scratch directory of the executions
 }
@@ -39,6 +40,9 @@ func (sp ScenParams) String() string {
 	s := fmt.Sprintf("%s/items=%d/buf=%d/max=%d/%s", sp.Graph, sp.Items, sp.Buf, sp.Max, sp.Kind)
 	if sp.AbsSrc {
 		s += "/absolute-sources"
+	}
+	if sp.RevSrc {
+		s += "/reverse-name-order"
 	}
 	if len(sp.Cores) > 0 {
 		s += fmt.Sprintf("/cores=%v", sp.Cores)
@@ -307,6 +311,14 @@ func catalog(p ScenParams) *WSpec {
 		if ps := w.proc("p"); ps != nil {
 			ps.Kind = "cmd"
 			ps.DirOut = true
+		}
+	case "samename": // the source files have the SAME base name in different directories: s0/in.txt, s1/in.txt, ...
+		for i := range w.Procs {
+			if w.Procs[i].Kind == "src" {
+				for k := range w.Procs[i].Items {
+					w.Procs[i].Items[k] = fmt.Sprintf("s%d/in.txt", k)
+				}
+			}
 		}
 	case "setout-only": // p's out-ports are declared with SetOut alone; its command builds the file name from its input
 		if ps := w.proc("p"); ps != nil {
